@@ -30,6 +30,10 @@ SHRINK_WALL = 45.0  # seconds of minimisation per reported violation
 SHRINK_TOTAL = 150.0  # ... and per check
 
 
+def _recursion_edge(v: Dict[str, Any]) -> bool:
+    return "RecursionError" in json.dumps(v.get("sig", {}), default=str)
+
+
 def _worker_init(counter: Any = None) -> None:
     # one CPU per worker: the threads of a run pass a baton (only one ever runs), and keeping them
     # on one CPU makes their wake-ups and the interpreter's frequent mmap/munmap of frame-stack
@@ -229,6 +233,14 @@ def run_check(modname: str, tier: str, max_runs: int, chunk: int = 8,
                 harness_errors.append(f"replay of seed {item['seed']}: {ex}")
                 continue
             if not any(x["sig"] == v["sig"] for x in again["violations"]):
+                if _recursion_edge(v):
+                    # one side of the mismatch is the interpreter running out of stack: where
+                    # exactly that happens is not the simulator's to decide (DESIGN section 7);
+                    # an incident of this kind that does not reproduce is counted, not reported
+                    n_viol -= 1
+                    agg_stats["recursion_edge_incident_not_reproduced"] = \
+                        agg_stats.get("recursion_edge_incident_not_reproduced", 0) + 1
+                    continue
                 harness_errors.append(
                     f"HARNESS-NONDETERMINISM seed {item['seed']}: violation {v['sig']} did not "
                     f"reappear when its trace was re-executed")
@@ -276,10 +288,18 @@ def run_check(modname: str, tier: str, max_runs: int, chunk: int = 8,
                                    "failure": failure}, fh, indent=1, default=kit._json_default)
                     rp = fresh_replay(path)
                 if rp.returncode != 1:
+                    n_viol -= 1  # not reported as a violation: only what replays is
+                    if _recursion_edge(v):
+                        agg_stats["recursion_edge_incident_not_reproduced"] = \
+                            agg_stats.get("recursion_edge_incident_not_reproduced", 0) + 1
+                        try:
+                            os.unlink(path)
+                        except OSError:
+                            pass
+                        continue
                     harness_errors.append(
                         f"replay file {path} did not reproduce in a fresh process "
                         f"(exit {rp.returncode}): {rp.stdout[-300:]}")
-                    n_viol -= 1  # not reported as a violation: only what replays is
                     continue
                 replays_confirmed[0] += 1
             except Exception as ex:  # noqa: BLE001
@@ -289,6 +309,10 @@ def run_check(modname: str, tier: str, max_runs: int, chunk: int = 8,
             viol_lines.append(f"VIOLATION property={prop} replay={path}")
             print(f"[{prop}] violation detail: {json.dumps(failure['sig'])} "
                   f"seed={item['seed']}", flush=True)
+    if not viol_lines:
+        # nothing was established (every candidate was attributed to a listed finding, or failed
+        # to reproduce and is listed as a harness error / recursion-edge incident instead)
+        n_viol = 0
     for k, n in sorted(all_sigs.items(), key=lambda kv: -kv[1])[:12]:
         print(f"[{prop}] violation class x{n} (incl. instances of listed findings): {k}", flush=True)
     # every listed finding is exercised by its own recorded probe trace, so that its
